@@ -129,6 +129,39 @@ func containsAtomicCall(n ast.Node) bool {
 	return found
 }
 
+// R8 applies under these directories
+var fileSeamDirs = []string{"shell/history/"}
+
+var fileOps = map[string]bool{"Write": true, "WriteString": true, "WriteByte": true, "Flush": true, "Read": true, "ReadAt": true,
+	"Seek": true, "Stat": true, "Truncate": true, "Sync": true, "OpenFile": true, "Open": true, "Create": true}
+
+// containsFileCall: the statement (not its nested blocks) calls a method or function with the name of a file operation
+func containsFileCall(n ast.Node) bool {
+	found := false
+	top := true
+	ast.Inspect(n, func(m ast.Node) bool {
+		if found {
+			return false
+		}
+		switch v := m.(type) {
+		case *ast.FuncLit:
+			return false
+		case *ast.BlockStmt:
+			_ = v
+			if top {
+				return false
+			}
+		case *ast.CallExpr:
+			if se, ok := v.Fun.(*ast.SelectorExpr); ok && fileOps[se.Sel.Name] {
+				found = true
+				return false
+			}
+		}
+		return true
+	})
+	return found
+}
+
 // isBlockingWake: a simple statement after which the goroutine may have been
 // woken by somebody else (R4): channel receive, WaitGroup/Cond Wait, time.Sleep
 func isBlockingWake(s ast.Stmt) bool {
@@ -186,6 +219,13 @@ func instrument(root, path string) {
 	}
 	changed := false
 	usesTimeNow := false
+	rel, _ := filepath.Rel(root, path)
+	fileSeam := false
+	for _, d := range fileSeamDirs {
+		if strings.HasPrefix(rel, d) {
+			fileSeam = true
+		}
+	}
 	ast.Inspect(f, func(n ast.Node) bool {
 		if call, ok := n.(*ast.CallExpr); ok && len(call.Args) == 0 {
 			if se, ok := call.Fun.(*ast.SelectorExpr); ok && se.Sel.Name == "Now" {
@@ -305,6 +345,18 @@ func instrument(root, path string) {
 				changed = true
 				stats["atomic"]++
 				return []ast.Stmt{yieldStmt(fset, root, s.Pos()), s}
+			}
+		}
+		// R8: in the packages that keep files shared between sessions, every file operation is a scheduling
+		// point (another session's system call can land between two of this one's)
+		if fileSeam {
+			switch s.(type) {
+			case *ast.ExprStmt, *ast.AssignStmt, *ast.IfStmt, *ast.ReturnStmt:
+				if containsFileCall(s) {
+					changed = true
+					stats["fileop"]++
+					return []ast.Stmt{yieldStmt(fset, root, s.Pos()), s}
+				}
 			}
 		}
 		// R4: re-park after a wake-up by another task or a timer
